@@ -5,13 +5,20 @@ import DrxProofs.Bitd24
 namespace Drx.Bitd
 open Drx Drx.Bitd.Spec
 
-/-- one BMP row of a planar 32-bit line (alpha, red, green, blue planes): blue, green, red of every pixel -/
-def bmpRow24 (W : Nat) (line : Bytes) : Bytes :=
-  interleave3 (slice line (3 * W) (4 * W)) (slice line (2 * W) (3 * W)) (slice line W (2 * W)) ++ zeros ((4 - (3 * W) % 4) % 4)
+/-- one BMP row of a planar 32-bit line (alpha, red, green, blue planes) of `w` pixels placed at column `ox`:
+    blue, green, red of every pixel -/
+def bmpRow24 (stride ox w : Nat) (line : Bytes) : Bytes :=
+  zeros (3 * ox) ++ interleave3 (slice line (3 * w) (4 * w)) (slice line (2 * w) (3 * w)) (slice line w (2 * w))
+    ++ zeros (stride - 3 * ox - 3 * w)
 
-theorem deint24_lines (w : Nat) (L : List Bytes) (hl : ∀ r ∈ L, r.length = 4 * w) :
-    deint24 L.flatten w L.length = L.flatMap (bmpRow24 w) := by
-  unfold deint24
+def stride24 (W : Nat) : Nat := 3 * W + (4 - (3 * W) % 4) % 4
+
+theorem deint24_lines (w cw ch ox : Nat) (hw : 0 < w) (L : List Bytes) (hl : ∀ r ∈ L, r.length = 4 * w) :
+    deint24 L.flatten w L.length cw ch ox = L.flatMap (bmpRow24 (stride24 cw) ox w) ++ zeros (stride24 cw * (ch - L.length)) := by
+  unfold deint24 stride24
+  have hw0 : ¬ (w = 0) := by omega
+  simp only [hw0, if_false]
+  congr 1
   rw [List.range_eq_range']
   apply flatMap_range'
   intro i hi
@@ -20,8 +27,6 @@ theorem deint24_lines (w : Nat) (L : List Bytes) (hl : ∀ r ∈ L, r.length = 4
   rw [slice_flatten_uniform (4 * w) L i (3 * w) (4 * w) hl hi (by omega) (by omega),
       slice_flatten_uniform (4 * w) L i (2 * w) (3 * w) hl hi (by omega) (by omega),
       slice_flatten_uniform (4 * w) L i w (2 * w) hl hi (by omega) (by omega)]
-  congr 2
-  omega
 
 abbrev Px32 := UInt8 × UInt8 × UInt8 × UInt8
 
@@ -46,9 +51,9 @@ theorem flatMap_quads_length (a : List Px32) : (a.flatMap fun p => [p.2.2.2, p.2
   | nil => rfl
   | cons p a ih => rw [List.flatMap_cons, List.length_append, ih]; simp; omega
 
-theorem bmpRow24_line (r : List Px32) :
-    bmpRow24 r.length (r.map (·.1) ++ r.map (·.2.1) ++ r.map (·.2.2.1) ++ r.map (·.2.2.2))
-      = (r.flatMap fun p => [p.2.2.2, p.2.2.1, p.2.1]) ++ zeros ((4 - (3 * r.length) % 4) % 4) := by
+theorem bmpRow24_line (stride ox : Nat) (r : List Px32) :
+    bmpRow24 stride ox r.length (r.map (·.1) ++ r.map (·.2.1) ++ r.map (·.2.2.1) ++ r.map (·.2.2.2))
+      = zeros (3 * ox) ++ (r.flatMap fun p => [p.2.2.2, p.2.2.1, p.2.1]) ++ zeros (stride - 3 * ox - 3 * r.length) := by
   unfold bmpRow24
   have e3 : slice (r.map (·.1) ++ r.map (·.2.1) ++ r.map (·.2.2.1) ++ r.map (·.2.2.2)) (3 * r.length) (4 * r.length) = r.map (·.2.2.2) := by
     have := slice_at (r.map (·.1) ++ r.map (·.2.1) ++ r.map (·.2.2.1)) (r.map (·.2.2.2)) [] (3 * r.length) r.length (by simp; omega) (by simp)
@@ -65,22 +70,25 @@ theorem bmpRow24_line (r : List Px32) :
     rw [e, ← List.append_assoc] at this; exact this
   rw [e3, e2, e1, interleave3_quads]
 
-theorem compressed24_spec (W H : Nat) (hW : 0 < W) (opsRows : List (List Op)) (rows : List Bytes)
-    (hv : validRows opsRows rows = true) (hn : rows.length = H) (hH : 0 < H) (hl : ∀ r ∈ rows, r.length = 4 * W) :
-    compressed24 (packed opsRows.flatten) W H = .ok ((rows.reverse.map (bmpRow24 W)).flatten) := by
+theorem compressed24_spec (W H ox oy : Nat) (hox : ox < W) (hoy : oy < H) (opsRows : List (List Op)) (rows : List Bytes)
+    (hv : validRows opsRows rows = true) (hn : rows.length = H - oy) (hl : ∀ r ∈ rows, r.length = 4 * (W - ox)) :
+    compressed24 (packed opsRows.flatten) W H ox oy
+      = .ok ((fileRowsK (stride24 W) oy (rows.reverse.map (bmpRow24 (stride24 W) ox (W - ox)))).flatten) := by
   unfold compressed24
-  have hz : zeros (4 * W * H) = zeros ((H - 1 + 1) * (4 * W)) ++ [] := by
+  simp only
+  have hz : zeros (4 * (W - ox) * (H - oy)) = zeros ((H - oy - 1 + 1) * (4 * (W - ox))) ++ [] := by
     rw [List.append_nil]; congr 1
-    have : H - 1 + 1 = H := by omega
+    have : H - oy - 1 + 1 = H - oy := by omega
     rw [this]; exact Nat.mul_comm _ _
-  have e : ((H : Int) - 1) = ((H - 1 : Nat) : Int) := by omega
-  have := loop24_rows (4 * W) (by omega) opsRows rows (H - 1) [] hv (by omega) hl
+  have e : (((H - oy : Nat) : Int) - 1) = ((H - oy - 1 : Nat) : Int) := by omega
+  have := loop24_rows (4 * (W - ox)) (by omega) opsRows rows (H - oy - 1) [] hv (by omega) hl
   rw [hz, e, this]
   simp only [List.append_nil]
-  have hL : ∀ r ∈ rows.reverse, r.length = 4 * W := fun r h => hl r (by simpa using h)
-  have hd := deint24_lines W rows.reverse hL
+  have hL : ∀ r ∈ rows.reverse, r.length = 4 * (W - ox) := fun r h => hl r (by simpa using h)
+  have hd := deint24_lines (W - ox) W H ox (by omega) rows.reverse hL
   rw [List.length_reverse, hn] at hd
-  rw [hd, List.flatMap_def]
+  have e2 : H - (H - oy) = oy := by omega
+  rw [hd, fileRowsK_flatten, List.flatMap_def, e2]
 
 /-- the 54 bytes in front of the pixel area of a 24-bit BMP -/
 def hdr24 (W H : Nat) : Bytes :=
@@ -92,8 +100,8 @@ theorem hdr24_length (W H : Nat) : (hdr24 W H).length = 54 := by
 
 theorem decode24_eval (c : Call) (oy : Nat) (hoy : c.padH = (oy : Int))
     (hW : c.width < 2147483648) (hH : c.height < 2147483648) (hsize : c.width * c.height * 3 + 54 < 2147483648) (bmp : Bytes) (b : Buf)
-    (hbmp : (if (c.fdata.length : Int) = (((c.width : Int) - c.padW) * 2) * ((c.height : Int) - oy)
-      then (.error .notImpl : R Bytes) else compressed24 c.fdata c.width c.height) = .ok bmp) :
+    (hbmp : (if (c.fdata.length : Int) = (((c.width : Int) - c.padW) * 4) * ((c.height : Int) - oy)
+      then (.error .notImpl : R Bytes) else compressed24 c.fdata c.width c.height c.padW oy) = .ok bmp) :
     decode24 true c b = ([], .ok (hdr24 c.width c.height ++ bmp)) := by
   unfold decode24
   rw [hoy, fixPad_nat]
@@ -130,61 +138,79 @@ theorem wf32 (W H ox oy : Nat) (rows : List (List Px32)) (h : (Img.mk W H ox oy 
   simp only [Img.wf, Pixels.shapeOk, Img.w, Img.h, Bool.and_eq_true, decide_eq_true_eq, beq_iff_eq, List.all_eq_true] at h
   exact ⟨h.1.1, h.1.2, h.2.1, h.2.2⟩
 
-theorem read_bmp24 (W H : Nat) (hW : W < 2147483648) (hH : H < 2147483648)
-    (rows : List (List Px32)) (hrows : rows.length = H) (hpix : ∀ r ∈ rows, r.length = W) :
-    readBmp (hdr24 W H ++ ((lines32 rows).reverse.map (bmpRow24 W)).flatten ++ []) = some (canvas ⟨W, H, 0, 0, .d32 rows⟩) := by
+/-- the explicit BMP of a 32-bit image -/
+def bmp24 (W H ox oy : Nat) (rows : List (List Px32)) : Bytes :=
+  hdr24 W H ++ (fileRowsK (stride24 W) oy ((lines32 rows).reverse.map (bmpRow24 (stride24 W) ox (W - ox)))).flatten
+
+theorem read_bmp24 (W H ox oy : Nat) (hox : ox ≤ W) (hoy : oy ≤ H) (hW : W < 2147483648) (hH : H < 2147483648)
+    (rows : List (List Px32)) (hrows : rows.length = H - oy) (hpix : ∀ r ∈ rows, r.length = W - ox) :
+    readBmp (bmp24 W H ox oy rows) = some (canvas ⟨W, H, ox, oy, .d32 rows⟩) := by
+  unfold bmp24
   have hf := hdr40_fields ((W * H * 3 + 40 + 14 : Nat) : Int) (40 + 14) W H 24 0 [] (by omega) hW hH (by omega)
   have hlen : (hdr24 W H).length = 40 + 14 := hdr24_length W H
-  have hrw : ∀ r ∈ (lines32 rows).reverse.map (bmpRow24 W), r.length = (W * 24 + 31) / 32 * 4 := by
+  have hrowlen : ∀ r ∈ fileRowsK (stride24 W) oy ((lines32 rows).reverse.map (bmpRow24 (stride24 W) ox (W - ox))),
+      r.length = (W * 24 + 31) / 32 * 4 := by
     intro r hr
-    simp only [lines32, List.mem_map, List.mem_reverse] at hr
-    obtain ⟨l, ⟨a, ha, rfl⟩, rfl⟩ := hr
-    have := hpix a ha
-    rw [← this, bmpRow24_line]
-    simp only [List.length_append, zeros_length, flatMap_quads_length]
-    omega
-  rw [readBmp_rows (hdr24 W H) W H 24 _ [] (by rw [hlen]; omega) hf.1 (by rw [hlen]; exact hf.2.1) hf.2.2.1 hf.2.2.2.1
-    hf.2.2.2.2.1 hf.2.2.2.2.2 hW hH (Or.inr (Or.inr rfl)) (by simp [lines32, hrows]) hrw]
+    simp only [fileRowsK, lines32, List.mem_append, List.mem_map, List.mem_reverse, List.mem_replicate] at hr
+    rcases hr with ⟨l, ⟨a, ha, rfl⟩, rfl⟩ | ⟨_, rfl⟩
+    · have := hpix a ha
+      rw [← this, bmpRow24_line]
+      simp only [List.length_append, zeros_length, flatMap_quads_length, stride24]
+      omega
+    · simp [stride24]; omega
+  have hcount : (fileRowsK (stride24 W) oy ((lines32 rows).reverse.map (bmpRow24 (stride24 W) ox (W - ox)))).length = H := by
+    simp [fileRowsK, lines32, hrows]; omega
+  have := readBmp_rows (hdr24 W H) W H 24 _ [] (by rw [hlen]; omega) hf.1 (by rw [hlen]; exact hf.2.1) hf.2.2.1 hf.2.2.2.1
+    hf.2.2.2.2.1 hf.2.2.2.2.2 hW hH (Or.inr (Or.inr rfl)) hcount hrowlen
+  rw [List.append_nil] at this
+  rw [this]
   have e24 : (24 : Nat) / 8 = 3 := rfl
-  rw [e24, ← List.map_reverse, List.reverse_reverse]
+  rw [e24]
   unfold lines32
-  rw [List.map_map, List.map_map]
-  unfold canvas canvasRows
-  simp only [Pixels.bytesPerPixel, List.replicate_zero, List.nil_append, List.map_map]
-  congr 1
-  apply List.map_congr_left
-  intro r hr
-  simp only [Function.comp]
-  have := hpix r hr
-  rw [← this, bmpRow24_line, pixelsOf_three]
+  rw [← List.map_reverse, List.map_map]
+  rw [read_fileRowsK 3 (stride24 W) W ox oy hox (by unfold stride24; omega) rows _ (fun r => r.map fun p => [p.2.2.2, p.2.2.1, p.2.1])]
+  · unfold canvas canvasRows
+    simp only [Pixels.bytesPerPixel, List.map_map]
+    rfl
+  · intro a ha
+    have hal := hpix a ha
+    refine ⟨a.flatMap fun p => [p.2.2.2, p.2.2.1, p.2.1], by rw [flatMap_quads_length, hal], ?_, ?_⟩
+    · rw [← hal]; exact pixelsOf_three a _
+    · simp only [Function.comp]
+      rw [← hal, bmpRow24_line]
 
-/-- 32 bit, PackBits storage, no offsets, any scan-line segmentation whose length does not trigger the decoder's
-    (2 bytes per pixel) raw test: header ++ BMP rows -/
-theorem bitd2bmp_32_packed (W H : Nat) (rows : List (List Px32)) (p1 p2 : UInt8) (opsRows : List (List Op))
-    (hwf : (Img.mk W H 0 0 (.d32 rows)).wf = true) (hfit : fitsHeader (Img.mk W H 0 0 (.d32 rows)) = true)
-    (hv : validEnc ⟨W, H, 0, 0, .d32 rows⟩ p1 p2 (.packed opsRows) = true)
-    (hne : (serialise ⟨W, H, 0, 0, .d32 rows⟩ p1 p2 (.packed opsRows)).length ≠ (serialise ⟨W, H, 0, 0, .d32 rows⟩ p1 p2 .raw).length)
-    (hne2 : (serialise ⟨W, H, 0, 0, .d32 rows⟩ p1 p2 (.packed opsRows)).length ≠ 2 * W * H) :
-    bitd2bmp (callOf ⟨W, H, 0, 0, .d32 rows⟩ (serialise ⟨W, H, 0, 0, .d32 rows⟩ p1 p2 (.packed opsRows)))
-      = .ok (hdr24 W H ++ ((lines32 rows).reverse.map (bmpRow24 W)).flatten) := by
-  obtain ⟨_, _, hrows, hpix⟩ := wf32 W H 0 0 rows hwf
-  simp only [Nat.sub_zero] at hrows hpix
+theorem lines32_len (W ox : Nat) (rows : List (List Px32)) (hpix : ∀ r ∈ rows, r.length = W - ox) :
+    ∀ r ∈ lines32 rows, r.length = 4 * (W - ox) := by
+  intro r hr
+  simp only [lines32, List.mem_map] at hr
+  obtain ⟨a, ha, rfl⟩ := hr
+  simp [hpix a ha]; omega
+
+theorem cast4 (W H ox oy : Nat) (hox : ox ≤ W) (hoy : oy ≤ H) :
+    (((W : Int) - (ox : Int)) * 4) * ((H : Int) - (oy : Int)) = ((4 * (W - ox) * (H - oy) : Nat) : Int) := by
+  have ewi : ((W : Int) - (ox : Int)) = ((W - ox : Nat) : Int) := by omega
+  have ehi : ((H : Int) - (oy : Int)) = ((H - oy : Nat) : Int) := by omega
+  rw [ewi, ehi, Int.natCast_mul, Int.natCast_mul, Int.mul_comm ((W - ox : Nat) : Int) 4]; rfl
+
+/-- 32 bit, PackBits storage: every geometry, every valid scan-line segmentation -/
+theorem bitd2bmp_32_packed (W H ox oy : Nat) (rows : List (List Px32)) (p1 p2 : UInt8) (opsRows : List (List Op))
+    (hwf : (Img.mk W H ox oy (.d32 rows)).wf = true) (hfit : fitsHeader (Img.mk W H ox oy (.d32 rows)) = true)
+    (hv : validEnc ⟨W, H, ox, oy, .d32 rows⟩ p1 p2 (.packed opsRows) = true)
+    (hne : (serialise ⟨W, H, ox, oy, .d32 rows⟩ p1 p2 (.packed opsRows)).length ≠ (serialise ⟨W, H, ox, oy, .d32 rows⟩ p1 p2 .raw).length) :
+    bitd2bmp (callOf ⟨W, H, ox, oy, .d32 rows⟩ (serialise ⟨W, H, ox, oy, .d32 rows⟩ p1 p2 (.packed opsRows))) = .ok (bmp24 W H ox oy rows) := by
+  obtain ⟨hox, hoy, hrows, hpix⟩ := wf32 W H ox oy rows hwf
   simp only [fitsHeader, decide_eq_true_eq] at hfit
   obtain ⟨hW, hH, hWH⟩ := fits_bounds W H hfit
   have hv' : validRows opsRows (lines32 rows) = true := hv
-  have hraw : ∀ r ∈ lines32 rows, r.length = 4 * W := by
-    intro r hr
-    simp only [lines32, List.mem_map] at hr
-    obtain ⟨a, ha, rfl⟩ := hr
-    simp [hpix a ha]; omega
-  have hlen : (lines32 rows).flatten.length = 4 * W * H := by
+  have hraw := lines32_len W ox rows hpix
+  have hlen : (lines32 rows).flatten.length = 4 * (W - ox) * (H - oy) := by
     rw [length_flatten_uniform _ _ hraw]; simp [lines32, hrows]
-  have hne' : (packed opsRows.flatten).length ≠ 4 * W * H := by
+  have hne' : (packed opsRows.flatten).length ≠ 4 * (W - ox) * (H - oy) := by
     rw [← hlen]; exact hne
-  have hne2' : (packed opsRows.flatten).length ≠ 2 * W * H := hne2
-  have hpos : 0 < W ∧ 0 < H := by
-    refine ⟨Nat.pos_of_ne_zero ?_, Nat.pos_of_ne_zero ?_⟩
-    · intro h0
+  have hpos : ox < W ∧ oy < H := by
+    refine ⟨Nat.lt_of_not_le ?_, Nat.lt_of_not_le ?_⟩
+    · intro hle
+      have h0 : W - ox = 0 := by omega
       apply hne'
       have : packed opsRows.flatten = [] := validRows_all_empty opsRows _ hv' (by
         intro r hr
@@ -192,31 +218,59 @@ theorem bitd2bmp_32_packed (W H : Nat) (rows : List (List Px32)) (p1 p2 : UInt8)
         rw [h0] at this
         exact List.eq_nil_of_length_eq_zero this)
       rw [this, h0]; simp
-    · intro h0
+    · intro hle
+      have h0 : H - oy = 0 := by omega
       apply hne'
       have : rows = [] := List.eq_nil_of_length_eq_zero (by omega)
       subst this
       have : packed opsRows.flatten = [] := validRows_all_empty opsRows _ hv' (by simp [lines32])
       rw [this, h0]; simp
   rw [bitd2bmp_32 _ rfl]
-  have hspec := compressed24_spec W H hpos.1 opsRows (lines32 rows) hv' (by simp [lines32, hrows]) hpos.2 hraw
-  rw [decode24_eval { callOf ⟨W, H, 0, 0, .d32 rows⟩ (serialise ⟨W, H, 0, 0, .d32 rows⟩ p1 p2 (.packed opsRows)) with
-      palette := paletteName (callOf ⟨W, H, 0, 0, .d32 rows⟩ (serialise ⟨W, H, 0, 0, .d32 rows⟩ p1 p2 (.packed opsRows))) } 0 rfl hW hH
-    (by show W * H * 3 + 54 < 2147483648; omega)
-    ((lines32 rows).reverse.map (bmpRow24 W)).flatten []
+  have hspec := compressed24_spec W H ox oy hpos.1 hpos.2 opsRows (lines32 rows) hv' (by simp [lines32, hrows]) hraw
+  rw [decode24_eval { callOf ⟨W, H, ox, oy, .d32 rows⟩ (serialise ⟨W, H, ox, oy, .d32 rows⟩ p1 p2 (.packed opsRows)) with
+      palette := paletteName (callOf ⟨W, H, ox, oy, .d32 rows⟩ (serialise ⟨W, H, ox, oy, .d32 rows⟩ p1 p2 (.packed opsRows))) } oy rfl hW hH
+    (by show W * H * 3 + 54 < 2147483648; omega) _ []
     (by
-      show (if (((packed opsRows.flatten).length : Nat) : Int) = (((W : Int) - ((0 : Nat) : Int)) * 2) * ((H : Int) - ((0 : Nat) : Int))
-        then (.error .notImpl : R Bytes) else compressed24 (packed opsRows.flatten) W H) = _
-      have : ¬ ((((packed opsRows.flatten).length : Nat) : Int) = (((W : Int) - ((0 : Nat) : Int)) * 2) * ((H : Int) - ((0 : Nat) : Int))) := by
+      show (if (((packed opsRows.flatten).length : Nat) : Int) = (((W : Int) - (ox : Int)) * 4) * ((H : Int) - (oy : Int))
+        then (.error .notImpl : R Bytes) else compressed24 (packed opsRows.flatten) W H ox oy) = _
+      have : ¬ ((((packed opsRows.flatten).length : Nat) : Int) = (((W : Int) - (ox : Int)) * 4) * ((H : Int) - (oy : Int))) := by
         intro h
-        apply hne2'
-        have e : (((W : Int) - ((0 : Nat) : Int)) * 2) * ((H : Int) - ((0 : Nat) : Int)) = ((2 * W * H : Nat) : Int) := by
-          simp only [Int.natCast_mul, Int.natCast_zero, Int.sub_zero]
-          rw [Int.mul_comm (W : Int) 2]; rfl
-        rw [e] at h
+        apply hne'
+        rw [cast4 W H ox oy hox hoy] at h
         exact Int.ofNat_inj.mp h
       rw [if_neg this]
       exact hspec)]
   rfl
+
+/-- `Decoder24b.decode` when the raw-size test fires -/
+theorem decode24_raw (c : Call) (oy : Nat) (hoy : c.padH = (oy : Int))
+    (hW : c.width < 2147483648) (hH : c.height < 2147483648) (hsize : c.width * c.height * 3 + 54 < 2147483648) (b : Buf)
+    (htest : (c.fdata.length : Int) = (((c.width : Int) - c.padW) * 4) * ((c.height : Int) - oy)) :
+    (decode24 true c b).2 = .error .notImpl := by
+  unfold decode24
+  rw [hoy, fixPad_nat]
+  dsimp only
+  rw [bind_ok _ _ _ _ _ (writeBmpHeader_ok _ _ (i32_nat _ (by omega)) (i32_nat _ (by omega)) b)]
+  rw [bind_ok _ _ _ _ _ (writeInfoHeader40_ok _ _ 24 0 (i32_nat _ hW) (i32_nat _ hH) (by omega) (by omega) _)]
+  rw [if_pos htest]
+  rfl
+
+/-- raw 32-bit storage is rejected (NotImplementedError), never decoded into a wrong picture -/
+theorem bitd2bmp_32_raw_rejected (W H ox oy : Nat) (rows : List (List Px32)) (p1 p2 : UInt8)
+    (hwf : (Img.mk W H ox oy (.d32 rows)).wf = true) (hfit : fitsHeader (Img.mk W H ox oy (.d32 rows)) = true) :
+    bitd2bmp (callOf ⟨W, H, ox, oy, .d32 rows⟩ (serialise ⟨W, H, ox, oy, .d32 rows⟩ p1 p2 .raw)) = .error .notImpl := by
+  obtain ⟨hox, hoy, hrows, hpix⟩ := wf32 W H ox oy rows hwf
+  simp only [fitsHeader, decide_eq_true_eq] at hfit
+  obtain ⟨hW, hH, hWH⟩ := fits_bounds W H hfit
+  have hraw := lines32_len W ox rows hpix
+  have hlen : (lines32 rows).flatten.length = 4 * (W - ox) * (H - oy) := by
+    rw [length_flatten_uniform _ _ hraw]; simp [lines32, hrows]
+  rw [bitd2bmp_32 _ rfl]
+  exact decode24_raw { callOf ⟨W, H, ox, oy, .d32 rows⟩ (serialise ⟨W, H, ox, oy, .d32 rows⟩ p1 p2 .raw) with
+      palette := paletteName (callOf ⟨W, H, ox, oy, .d32 rows⟩ (serialise ⟨W, H, ox, oy, .d32 rows⟩ p1 p2 .raw)) } oy rfl hW hH
+    (by show W * H * 3 + 54 < 2147483648; omega) []
+    (by
+      show (((lines32 rows).flatten.length : Nat) : Int) = (((W : Int) - (ox : Int)) * 4) * ((H : Int) - (oy : Int))
+      rw [hlen, cast4 W H ox oy hox hoy])
 
 end Drx.Bitd
